@@ -722,12 +722,16 @@ func (s *Shard) validateSeriesAndFields(points []models.Point) ([]models.Point, 
 				continue
 			}
 
-			if mf.FieldBytes(fieldKey) != nil {
+			dataType := dataTypeFromModelsFieldType(iter.Type())
+			if dataType == influxql.Unknown {
 				continue
 			}
 
-			dataType := dataTypeFromModelsFieldType(iter.Type())
-			if dataType == influxql.Unknown {
+			// Skip the field only if it exists with the type of this point. A
+			// concurrent write may have created it with another type since the
+			// validator looked; CreateFieldIfNotExists then reports the conflict
+			// instead of values of a second type being stored under the field.
+			if f := mf.FieldBytes(fieldKey); f != nil && f.Type == dataType {
 				continue
 			}
 
